@@ -7,7 +7,7 @@ mkdir -p /verif/.cache/ev_backup && cp -f evidence/*.json /verif/.cache/ev_backu
 for d in ${@:-$(ls seeded)}; do
   id=$(echo $d | cut -c1-3)
   [ -f seeded/$d/patch.diff ] || continue
-  git -C /repo apply seeded/$d/patch.diff || { echo "$d: patch does not apply"; continue; }
+  git -C /repo apply /verif/seeded/$d/patch.diff || { echo "$d: patch does not apply"; continue; }
   out=$(bin/check $id 2>&1); rc=$?
   git -C /repo checkout -- .
   v=$(echo "$out" | grep -c "^VIOLATION property=$id")
